@@ -226,19 +226,21 @@ def _req_fields(r):
     return (r.command, r.uri, r.version, list(r.header))
 
 
-def parse_server_section(wd, username, password, sockname):
-    """Server configs through the REAL config parser (options.py)."""
+def parse_server_section(wd, username, password, sockname, inet_creds=None):
+    """Server configs through the REAL config parser (options.py).  `inet_creds`:
+    (user, password) of the inet section when it differs from the unix one."""
     from supervisor.options import ServerOptions, UnhosedConfigParser
     text = '[unix_http_server]\nfile=%s\n' % sockname
     text2 = '[inet_http_server]\nport=127.0.0.1:9001\n'
+    iu, ip = inet_creds if inet_creds is not None else (username, password)
     if username is not None:
-        cred = 'username=%s\n' % username.replace('%', '%%')
-        text += cred
-        text2 += cred
+        text += 'username=%s\n' % username.replace('%', '%%')
     if password is not None:
-        cred = 'password=%s\n' % password.replace('%', '%%')
-        text += cred
-        text2 += cred
+        text += 'password=%s\n' % password.replace('%', '%%')
+    if iu is not None:
+        text2 += 'username=%s\n' % iu.replace('%', '%%')
+    if ip is not None:
+        text2 += 'password=%s\n' % ip.replace('%', '%%')
     parser = UnhosedConfigParser()
     parser.expansions = {}
     parser.read_string(text + text2)
@@ -253,7 +255,7 @@ def parse_server_section(wd, username, password, sockname):
 class Testbed(object):
     """One make_http_servers() result with probes attached."""
 
-    def __init__(self, wd, username, password, tag='s', via_parser=True):
+    def __init__(self, wd, username, password, tag='s', via_parser=True, inet_creds=None):
         from supervisor import http as shttp
         from supervisor.medusa import asyncore_25 as asyncore
         from supervisor import rpcinterface
@@ -278,7 +280,7 @@ class Testbed(object):
         opts = Options(wd, self.logger)
         self.sockname = os.path.join(wd, tag + '.sock')
         if via_parser:
-            opts.server_configs = parse_server_section(wd, username, password, self.sockname)
+            opts.server_configs = parse_server_section(wd, username, password, self.sockname, inet_creds)
         else:
             opts.server_configs = [
                 {'family': socket.AF_UNIX, 'file': self.sockname, 'chmod': 0o700, 'chown': (-1, -1),
